@@ -93,6 +93,7 @@ type observation struct {
 	Written  []ckey // the keys of the map, ascending
 	Union    []ckey
 	Unreal   int    // gaps without a concrete absent key
+	Absent   int    // absent keys the streaming reader was asked for
 	Shape    [][]int
 	RootKind string // "none", "leaf", "inner", "bad"
 	Evals    int
@@ -520,6 +521,9 @@ func observeK[K cmp.Ordered](s spec, api treeAPI[K]) (*observation, error) {
 			} else {
 				rec.LK = append(rec.LK, answer(ff, k))
 				ob.Evals++
+				if _, present := vids[k]; !present || rec.Val[len(rec.LK)-1] < 0 {
+					ob.Absent++
+				}
 			}
 			rec.ML = append(rec.ML, answer(mem, k))
 		}
@@ -611,9 +615,6 @@ func walk(r pdf.Getter, root pdf.Object, leafKey pdf.Name, decodeKey func(pdf.Ge
 				nd.Kind, nd.Note = "bad", "/Kids is not an array"
 			}
 			for _, kid := range arr {
-				if _, isRef := kid.(pdf.Reference); !isRef {
-					nd.Kind, nd.Note = "bad", "kid is not an indirect reference" // Table 36: "array of indirect references"
-				}
 				ki, fresh := alloc(kid)
 				nd.Kids = append(nd.Kids, ki)
 				if fresh {
